@@ -1073,6 +1073,9 @@ class SyncObj(object):
 
     def __onNodeConnected(self, node):
         self.__connectedNodes.add(node)
+        # A snapshot transfer does not survive a reconnect: the pieces sent over the old connection
+        # may be lost, the node has to be sent the snapshot from its beginning again.
+        self.__serializer.cancelTransmisstion(node)
 
     def __onNodeDisconnected(self, node):
         self.__connectedNodes.discard(node)
